@@ -124,7 +124,28 @@ func buildFaultTree(id int, seed int64) *faultTree {
 	t.cfg.NF = []string{"bin", "v1"}[rng.Intn(2)]
 	t.cfg.Cache = []string{"none", "none", "large"}[rng.Intn(3)]
 	t.prep = []string{"persisted", "persisted", "dirty", "dirty", "memory", "emptied", "dirtyleft", "dirtyleft", "dirtyright", "dirtyright"}[rng.Intn(10)]
-	t.kc = newKeyCodec(t.cfg.KT, t.cfg.NK, t.cfg.Bf, rng, nil, 3)
+	var shape []int
+	if rng.Intn(4) == 0 {
+		// a directed three-level shape: groups of lower-layer keys (with keys of the middle layer on both sides) around ONE key of the
+		// top layer, every key present; removing or re-inserting the separator merges or splits at two levels
+		for g := 0; g < 2; g++ {
+			sz := 2 + rng.Intn(3)
+			mid := rng.Intn(sz)
+			for i := 0; i < sz; i++ {
+				l := 0
+				if i == mid || rng.Intn(3) == 0 {
+					l = 1
+				}
+				shape = append(shape, l)
+			}
+			if g == 0 {
+				shape = append(shape, 2)
+			}
+		}
+		t.cfg.KT, t.cfg.NK, t.cfg.Bf = "userkey", len(shape), 2
+		t.prep = []string{"persisted", "dirtyleft", "dirtyleft", "dirtyright", "dirtyright", "dirty"}[rng.Intn(6)]
+	}
+	t.kc = newKeyCodec(t.cfg.KT, t.cfg.NK, t.cfg.Bf, rng, shape, 3)
 	t.cfg.Layers = t.kc.layers
 	t.vc = newValCodec(t.cfg.VT)
 	t.st = newRecStore(fmt.Sprintf("flt-%d", id))
@@ -174,7 +195,17 @@ func buildFaultTree(id int, seed int64) *faultTree {
 		}
 		return m2
 	}
-	mut(m, t.model, t.cfg.NK+rng.Intn(2*t.cfg.NK), 2)
+	if shape != nil {
+		for k := 1; k <= t.cfg.NK; k++ {
+			v := 1 + rng.Intn(2)
+			if err := m.Insert(ctx, t.kc.Key(k), t.vc.Val(v)); err != nil {
+				panic(err)
+			}
+			t.model[k] = v
+		}
+	} else {
+		mut(m, t.model, t.cfg.NK+rng.Intn(2*t.cfg.NK), 2)
+	}
 	switch t.prep {
 	case "persisted":
 		m = reload(m)
